@@ -67,7 +67,7 @@ func (sc *scenario) pages() int { return int(sc.maxLC/dag.PageSize) + 1 }
 // roundStepCap bounds the deliveries of one fair round (a round that does not quiesce within it is a livelock symptom); the largest
 // number a round needed on the unchanged tree is reported in the evidence (max_deliveries_in_a_fair_round).
 func (sc *scenario) roundStepCap() int {
-	return 1500 + 150*sc.n*sc.pages()*sc.pages()
+	return 400 + 100*sc.n*sc.pages()
 }
 
 func (sc *scenario) bound() int {
